@@ -26,6 +26,17 @@ CLAIMED = {
         ref='DESIGN.md section 4, C07'),
 }
 
+CLAIMED['C20'] = dict(
+    engine='symx',
+    technique='symbolic execution of the real wntr.metrics functions on models and pandas object-dtype tables of z3 proxies; SMT (z3 LRA/NRA/LIA, exp/log uninterpreted) decides equality of every returned entry with the documented formula',
+    text='expected_demand, average_expected_demand (incl. the _gcd/_lcm period computation on symbolic integers), water_service_availability, todini_index, '
+         'modified_resilience_index (both modes), tank_capacity (cylinder and volume curve), population, pump_power/energy/cost and annual network cost / GHG '
+         'are executed on a template network and result tables whose numeric entries are symbolic; for every explored path z3 proves the returned terms equal '
+         'the documented formulas for ALL values in the stated ranges (pattern_start symbolic for expected_demand; table look-ups fork over the nearest entry).',
+    note='Trusted: z3; floats as reals; pandas/numpy container plumbing executed concretely (object dtype) with three shims listed in the evidence; one template '
+         'network; pattern lengths from a listed grid; head-pump curve concrete in the cost check. Known finding: annual_network_cost reads the efficiency percentage as a fraction.',
+    ref='DESIGN.md section 4, C20')
+
 NOT_APPLICABLE = {
     'C03': 'compares the numerical output of the closed EPANET shared library with a compiled Newton/SuperLU iteration; neither can be executed '
            'symbolically with the tools on this image and a contract standing in for EPANET would be the property itself (DESIGN.md section 5)',
